@@ -836,6 +836,62 @@ def r8_parenthesis(ctx):
                      expected="raise when the number of arguments differs from narg")
 
 
+def residue_guard(ctx, after=None):
+    """After the reduction passes: leftover tokens (anything on the left, more than one on the right) are rejected.
+    Shared with C03.R10 (juxtaposed unit symbols without an operator are an error)."""
+    if after is None:
+        solve = ctx.fn(SOLVER, "ExpressionSolver.solve")
+        wl = [n for n in solve.body if isinstance(n, ast.While)]
+        if not wl:
+            ctx.unrecognised(SOLVER, "ExpressionSolver.solve", "unprocessed tokens are rejected", "tokeniser loop not found")
+            return
+        after = solve.body[solve.body.index(wl[0]) + 1:]
+    # leftover tokens rejected
+    rs = [n for n in after if isinstance(n, ast.If) and any(isinstance(x, ast.Raise) for x in n.body)]
+    t = norm(rs[0].test) if rs else None
+    L, R = "self.tokens.left", "self.tokens.right"
+    # the guard as a decision table over the sizes of the two buffers (one result token is always there)
+    what = "unprocessed tokens are rejected"
+    if not rs:
+        ctx.form(False, SOLVER, "ExpressionSolver.solve", what, detail="no raising guard after the reduction passes")
+    else:
+        from ..normalise import clone
+
+        class _Sizes(ast.NodeTransformer):
+            def __init__(self, l, r):
+                self.l, self.r = l, r
+
+            def visit_Call(self, n):
+                if norm(n) == f"len({L})":
+                    return ast.Constant(value=self.l)
+                if norm(n) == f"len({R})":
+                    return ast.Constant(value=self.r)
+                return self.generic_visit(n)
+
+            def visit_Attribute(self, n):
+                if norm(n) == L:
+                    return ast.Constant(value=self.l > 0)
+                if norm(n) == R:
+                    return ast.Constant(value=self.r > 0)
+                return self.generic_visit(n)
+        bad, undecided = [], []
+        for l in (0, 1, 2):
+            for r in (1, 2, 3):
+                v = _Sizes(l, r).visit(clone(rs[0].test))
+                if all(isinstance(x, (ast.Constant, ast.Compare, ast.BoolOp, ast.UnaryOp, ast.BinOp, ast.cmpop, ast.boolop, ast.unaryop, ast.operator, ast.expr_context))
+                       for x in ast.walk(v)):
+                    # constant folding of an integer/boolean expression without names or calls
+                    v = ast.Constant(value=eval(compile(ast.fix_missing_locations(ast.Expression(body=v)), "<guard>", "eval"), {"__builtins__": {}}, {}))
+                if not (isinstance(v, ast.Constant) and isinstance(v.value, (bool, int))):
+                    undecided.append(norm(v))
+                elif bool(v.value) != (l > 0 or r > 1):
+                    bad.append(f"left={l} right={r}: {'rejected' if v.value else 'accepted'}")
+        if undecided:
+            ctx.form(False, SOLVER, "ExpressionSolver.solve", what, detail=sorted(set(undecided))[:2])
+        else:
+            ctx.check(not bad, SOLVER, "ExpressionSolver.solve", what, detail=bad or None, expected="rejected exactly when a token is left on the left or more than one on the right")
+
+
 def r8c_tokeniser(ctx):
     solve = ctx.fn(SOLVER, "ExpressionSolver.solve")
     wl = [n for n in solve.body if isinstance(n, ast.While)]
@@ -894,15 +950,7 @@ def r8c_tokeniser(ctx):
         "self.tokens.append(self.tokens.atom(" in norm(after[0].body[0])
     ctx.form(ok, SOLVER, "ExpressionSolver.solve", "remaining text becomes the last atom",
               detail=norm(after[0]) if after else None)
-    # leftover tokens rejected
-    rs = [n for n in after if isinstance(n, ast.If) and any(isinstance(x, ast.Raise) for x in n.body)]
-    t = norm(rs[0].test) if rs else None
-    L, R = "self.tokens.left", "self.tokens.right"
-    ok = False
-    if rs and isinstance(rs[0].test, ast.BoolOp) and isinstance(rs[0].test.op, ast.Or) and len(rs[0].test.values) == 2:
-        parts = {norm(v) for v in rs[0].test.values}
-        ok = bool(parts & {f"len({L}) > 0", L, f"len({L}) != 0", f"len({L}) >= 1", f"{L} != []"}) and bool(parts & {f"len({R}) > 1", f"len({R}) >= 2"})
-    ctx.form(ok, SOLVER, "ExpressionSolver.solve", "unprocessed tokens are rejected", detail=t)
+    residue_guard(ctx, after)
 
 
 def r9_fresh_buffers(ctx):
